@@ -263,13 +263,13 @@ fn post(account: usize, amount: Option<VE>) -> Posting {
 fn hold(date: i32, ps: &[(usize, i64, u32, usize)]) -> Entry {
     let mut posts: Vec<Posting> = ps.iter().map(|(a, m, s, c)| post(*a, Some(lit(*m, *s, *c)))).collect();
     posts.push(post(EQUITY_ACCT, None));
-    Entry::Txn(Txn { date, posts })
+    Entry::Txn(Txn { date, effective: None, posts })
 }
 /// a rate x -> y on `date`: `Equity:Opening  0 X @ r Y` (the form the C10 cases use)
 fn quote(date: i32, x: usize, m: i64, s: u32, y: usize) -> Entry {
     let mut p = post(EQUITY_ACCT, Some(lit(0, 0, x)));
     p.cost = Some(Exch::Rate(lit(m, s, y)));
-    Entry::Txn(Txn { date, posts: vec![p, post(EQUITY_ACCT, None)] })
+    Entry::Txn(Txn { date, effective: None, posts: vec![p, post(EQUITY_ACCT, None)] })
 }
 fn nonzero(r: &mut Rng) -> (i64, u32) {
     let scale = *r.pick(&[0u32, 0, 2, 3]);
@@ -318,7 +318,7 @@ fn failing_txn(r: &mut Rng, f: Failing, date: i32, k: usize) -> Entry {
             vec![p, post(EQUITY_ACCT, None)]
         }
     };
-    Entry::Txn(Txn { date, posts })
+    Entry::Txn(Txn { date, effective: None, posts })
 }
 
 /// a ledger with several independent failures and the commands to run on it
